@@ -150,6 +150,16 @@ func (fc *FnCtx) contractModTargets(c *Contract, home *ContractSet, homePkg *typ
 		e := m.E
 		switch e.Kind {
 		case SField:
+			if a0 := e.Args[0]; a0.Kind == SField && a0.Args[0].Kind == SIdent {
+				if t := fc.tryResolveType(a0.Args[0].Name+"."+a0.Name, homePkg); t != nil {
+					env := &SpecEnv{fc: fc, home: home, homePkg: homePkg, bound: map[string]Val{}}
+					ot, ft := fc.fieldOwner(t, e.Name, env)
+					key := fc.fieldKey(ot, e.Name)
+					fc.heapKeySort(key, fmt.Sprintf("(Array Int %s)", fc.sortOf(ft)))
+					out = append(out, modTarget{key, ""})
+					continue
+				}
+			}
 			if e.Args[0].Kind == SIdent {
 				if t, ok := ptype[e.Args[0].Name]; ok {
 					_, owner, isPtr := structOf(t)
